@@ -90,7 +90,9 @@ ASSUMPTIONS = [
 
 
 def attribute(pid, fields):
-    return bool(set(fields) & PI[pid])
+    # the interpreter's mode after a call (does the run go on, await input, end?) is part of what
+    # every session property means by "behaves"
+    return bool(set(fields) & (PI[pid] | {"mode"}))
 
 
 def run(pid, tier, seed):
